@@ -267,6 +267,11 @@ def run(ctx):
         try:
             g = G(**opts)
             xarg = np.asarray(x) if rng.random() < 0.7 else np.asarray([x, x])       # keeps the integer dtype of an integer x
+            if rng.random() < 0.35:
+                # the same generator instance has served another configuration before (same method and n with another order, or
+                # another method / n / point): a generator holds options, not results
+                o_prev = rng.choice([v for v in (1, 2, 4, 6) if v != o])
+                list(g(xarg, m, n, o_prev)) if rng.random() < 0.7 else list(g(np.asarray(x) + 50.0, rng.choice(METHODS), rng.randint(1, 4), o_prev))
             steps = [complex(np.asarray(s).ravel()[0]) if cls == 'c' else float(np.asarray(s).ravel()[0]) for s in g(xarg, m, n, o)]
         except Exception as ex:
             ctx.tried(key)
